@@ -7,11 +7,13 @@ package pbft
 
 import (
 	"bytes"
+	"io"
 	"io/ioutil"
 	"os"
 	"time"
 
 	bc "github.com/dappledger/AnnChain/gemmill/blockchain"
+	auto "github.com/dappledger/AnnChain/gemmill/modules/go-autofile"
 	dbm "github.com/dappledger/AnnChain/gemmill/modules/go-db"
 	"github.com/dappledger/AnnChain/gemmill/types"
 	"github.com/spf13/viper"
@@ -307,5 +309,80 @@ func VerifHarness_C07_reconstruct_last_commit() {
 		if a != nil && b != nil {
 			vAssert(a.BlockID.Equals(b.BlockID), "W4-precommit-unchanged")
 		}
+	}
+}
+
+// vStartTicker records when it is started relative to what OnStart does around it
+type vStartTicker struct {
+	started               int
+	replayCallsAtStart    int
+	scheduledBeforeStart  int
+	scheduled             []timeoutInfo
+	ch                    chan timeoutInfo
+}
+
+func (t *vStartTicker) Start() (bool, error) {
+	t.started++
+	t.replayCallsAtStart = vStubCalls("ConsensusState).catchupReplay")
+	return true, nil
+}
+func (t *vStartTicker) Stop() bool               { return true }
+func (t *vStartTicker) Chan() <-chan timeoutInfo { return t.ch }
+func (t *vStartTicker) ScheduleTimeout(ti timeoutInfo) {
+	if t.started == 0 {
+		t.scheduledBeforeStart++ // the real ticker's channel has room for 10: replay of a longer height blocks for ever
+	}
+	t.scheduled = append(t.scheduled, ti)
+}
+
+// W5: the start-up sequence of a restarted node. The timeout ticker runs BEFORE the write-ahead
+// log is replayed (replay schedules timeouts; nobody else reads the ticker's channel), the height
+// marker is written when the log lacks it, and round 0 is scheduled afterwards. Under the engine
+// catchupReplay is a seam (its call is counted); natively the log really holds a timeout record
+// whose replay schedules the next timeout.
+func VerifHarness_C07_start_sequence() {
+	w := vC07New(false)
+	defer w.cleanup()
+	cs := w.cs
+	cs.BaseService = *vNewBase()
+	cs.BaseService.Start()
+	tk := &vStartTicker{ch: make(chan timeoutInfo, 4)}
+	cs.timeoutTicker = tk
+	cs.Step = RoundStepNewHeight // (at NewHeight the vote set still tracks round 0 only)
+	markerInLog := vNondetBool("height-marker-already-in-the-log")
+	if vSymbolic() {
+		var e error
+		if !markerInLog {
+			e = io.EOF
+		}
+		vSetStub("go-autofile.Group).Search", (*auto.GroupReader)(nil), markerInLog, e)
+		vSetStub("ConsensusState).catchupReplay", nil)
+	} else if markerInLog {
+		cs.wal.Save(cs.RoundStateEvent()) // "#HEIGHT: 5" + the NewHeight step
+		cs.wal.Save(timeoutInfo{Duration: 1, Height: cs.Height, Round: 0, Step: RoundStepNewHeight})
+	}
+	before := len(w.walLines())
+	err := cs.OnStart() // real
+	if !vSymbolic() {
+		time.Sleep(50 * time.Millisecond)
+		close(cs.Quit)
+		<-cs.done
+	}
+	vReach("started")
+	vAssert(err == nil, "W5-start-succeeds")
+	vAssert(tk.started == 1, "W5-ticker-started-once")
+	vAssert(tk.replayCallsAtStart == 0 && tk.scheduledBeforeStart == 0, "W5-ticker-runs-before-the-log-is-replayed")
+	round0 := false
+	for _, ti := range tk.scheduled {
+		if ti.Height == 5 && ti.Round == 0 && ti.Step == RoundStepNewHeight {
+			round0 = true
+		}
+	}
+	vAssert(round0, "W5-round-0-of-the-height-is-scheduled")
+	if !markerInLog {
+		lines := w.walLines()[before:]
+		vAssert(len(lines) >= 2 && lines[0] == "#HEIGHT: 5", "W5-missing-height-marker-is-written-at-start")
+	} else {
+		vReach("log-replayed")
 	}
 }
